@@ -49,6 +49,13 @@ CLAIMS = {
         note=A1 + 'ASSUMED, not verified: Quadratic::partial_evaluate and Polynomial::partial_evaluate (BTreeMap entry/merge code; their epsilon-dropped remainder is left uninterpreted) and the HashMap::values_mut loop over dependency functions. The property is decided for constants/linear functions and for the structural (instance) layer; partially for quadratic/polynomial.',
         technique='contract-based deductive verification (Verus) of mechanically extracted Rust functions; ghost lemmas over the contracts',
         ref='DESIGN 6 C03'),
+    'C12': dict(
+        text='Deductive proof (Verus) of the real text of Instance::log_encode: Ok exactly for a known id (first match) of integer kind with a set, FINITE bound that contains an integer; an error leaves the instance unchanged; '
+             'a single-integer range returns the constant and adds nothing; otherwise n >= 1 fresh binaries (ids max+1.., kind binary, bound [0,1], subscripts [id,i], name tag) with 2^(n-1) <= U < 2^n, constant ceil(l) and coefficients 2^i / U-2^(n-1)+1. '
+             'Ghost lemma (all widths, no bound): the values over all bit assignments are exactly the integers ceil(l)..floor(u) (complete-sequence argument with explicit witness).',
+        note=A1 + 'A2: x.log2().ceil() as usize is the exact ceil(log2 x) (saturating for +inf). ASSUMED callee contracts: Linear::new keeps strictly-increasing non-dropped terms unchanged; defined_ids = set of ids. Precondition (observation): ids < 2^64-65536. Defect D1 (infinite bound => OOM loop) was found by this check and repaired in /repo (fix: a11f38c).',
+        technique='contract-based deductive verification (Verus) of mechanically extracted Rust functions + inductive ghost lemmas (complete-sequence criterion over reals with an integrality predicate)',
+        ref='DESIGN 6 C12'),
 }
 NA = {
     'C06': 'evaluate_samples is built from FnMut closures capturing &mut state and iterator adapters over HashMap<OrderedFloat,..>: rejected by Verus, far beyond measured Kani limits; leaf lookups alone do not decide the property (DESIGN 6 C06)',
